@@ -1,14 +1,12 @@
-import Marwood.Lemmas.PrepareDefs
-import Marwood.Lemmas.ProcInvOps
-import Marwood.Lemmas.GoodAlloc
+import Marwood.Lemmas.PreparePInv
+import Marwood.Lemmas.PrepareEnvCode
+import Marwood.Lemmas.EnvTaintOps
 /-!
-# One allocator step of the loader (`InstStep`, Lemmas/PrepareDefs.lean) keeps "no value leads to entry code" (`HP`)
+# One allocator step of the loader (`InstStep`, Lemmas/PrepareDefs.lean) keeps "no value leads to a capturing lambda" (`Taint.HP`)
 
-The new case with respect to Lemmas/ProcInvOps.lean is the allocation of a *lambda* cell (possibly the entry lambda):
-the heaps before and after do not have the same lambda cells (`LamSame` fails at the new address `p`). What holds is
-that `entryAt` / `procAtB` agree at every address `≠ p`, and every address the predicates `cellPF` / `neF` inspect in
-an allocated cell, a root or the new cell is an allocated address of the old heap (`cellPF_congr`: they inspect only
-addresses the collector follows), hence `≠ p`: `p` was free, and is not a sentinel.
+The mirror of Lemmas/PreparePInv.lean with `capAt` in place of `entryAt`, `allAtB` in place of `procAtB`, `cellTF` /
+`immTF` in place of `cellPF` / `immPF`. The new lambda cell satisfies `cellEB` by the `imm` clause of `LamEnvOk`
+(the requirement `Q` on new code objects implies it); the data cells by `dataEB`.
 -/
 namespace Marwood.Lemmas.Good
 open Marwood Marwood.Vm Marwood.Vm.Verify Marwood.Vm.Concrete Marwood.Lemmas.Sim
@@ -16,53 +14,40 @@ open Marwood.Heap (GcState WFHeap RootsOk vrefs vrefsList crefs bcRefs)
 
 /-! ## the predicates inspect only addresses the collector follows -/
 
-theorem list_all_congr {α : Type} {f g : α → Bool} : ∀ (l : List α), (∀ x ∈ l, f x = g x) → l.all f = l.all g
-  | [], _ => rfl
-  | a :: l, h => by
-    simp only [List.all_cons]
-    rw [h a List.mem_cons_self, list_all_congr l (fun x hx => h x (List.mem_cons_of_mem _ hx))]
-
-/-- `neF` inspects only addresses the collector follows from the inline value -/
-theorem neF_congr {E E' : Nat → Bool} (v : VCell) (hv : ∀ y ∈ vrefs true (eraseV v), E y = E' y) :
-    neF E v = neF E' v := by
-  cases v <;> first | rfl | skip
-  rename_i p
-  simp only [neF]
-  rw [hv p (by simp [eraseV, vrefs])]
-
-theorem all_neF_congr {E E' : Nat → Bool} (l : List VCell)
-    (hl : ∀ y ∈ vrefsList true (l.map eraseV), E y = E' y) : l.all (neF E) = l.all (neF E') :=
-  list_all_congr l fun v hv => neF_congr v fun y hy => hl y (vrefsList_mem_iff.mpr ⟨v, hv, hy⟩)
-
-theorem immPF_congr {E E' : Nat → Bool} (bc : List VCell)
-    (hb : ∀ y ∈ bcRefs true false (bc.map eraseV), E y = E' y) : immPF E bc = immPF E' bc := by
-  unfold immPF
+theorem immTF_congr {E E' : Nat → Bool} (bc : List VCell)
+    (hb : ∀ y ∈ bcRefs true false (bc.map eraseV), E y = E' y) : immTF E bc = immTF E' bc := by
+  unfold immTF
   refine list_all_congr _ ?_
   intro j _
   have key : ∀ op, bc[j]? = some (.opcode op) → isJumpOp (.opcode op) = false →
-      (match bc[j + 1]? with | some v => neF E v | none => true) =
-      (match bc[j + 1]? with | some v => neF E' v | none => true) := by
-    intro op hop hnj
+      ∀ v, bc[j + 1]? = some v → neF E v = neF E' v := by
+    intro op hop hnj v hv
+    refine neF_congr v ?_
+    intro y hy
+    refine hb y (bcRefs_mem bc false false (by intro h; cases h) (j + 1) v hv ?_ y hy)
+    simp only [prevFrom, hop]
+    exact hnj
+  split
+  · rename_i hop
     cases hv : bc[j + 1]? with
     | none => rfl
     | some v =>
       simp only
-      refine neF_congr v ?_
-      intro y hy
-      refine hb y (bcRefs_mem bc false false (by intro h; cases h) (j + 1) v hv ?_ y hy)
-      simp only [prevFrom, hop]
-      exact hnj
-  split
-  · rename_i hop; exact key _ hop rfl
-  · rename_i hop; exact key _ hop rfl
+      exact key _ hop rfl v hv
+  · rename_i hop
+    cases hv : bc[j + 1]? with
+    | none => rfl
+    | some v =>
+      simp only
+      rw [key _ hop rfl v hv]
   · rfl
 
-/-- `cellPF` inspects only addresses the collector follows from the cell -/
-theorem cellPF_congr {E E' P P' : Nat → Bool} (c : CCell)
-    (hc : ∀ y ∈ crefs true (eraseC c), E y = E' y ∧ P y = P' y) : cellPF E P c = cellPF E' P' c := by
+/-- `cellTF` inspects only addresses the collector follows from the cell -/
+theorem cellTF_congr {E E' P P' : Nat → Bool} (c : CCell)
+    (hc : ∀ y ∈ crefs true (eraseC c), E y = E' y ∧ P y = P' y) : cellTF E P c = cellTF E' P' c := by
   cases c with
   | val v =>
-    simp only [cellPF]
+    simp only [cellTF]
     cases v <;> first | rfl | skip
     · rename_i a d
       simp only [valPF]
@@ -74,18 +59,18 @@ theorem cellPF_congr {E E' P P' : Nat → Bool} (c : CCell)
       simp only [valPF]
       rw [(hc p (by simp [eraseC, eraseV, crefs])).1]
   | lexEnv ss =>
-    simp only [cellPF]
+    simp only [cellTF]
     exact all_neF_congr ss fun y hy => (hc y (by simpa [eraseC, crefs] using hy)).1
   | vector es =>
-    simp only [cellPF]
+    simp only [cellTF]
     exact all_neF_congr es fun y hy => (hc y (by simpa [eraseC, crefs] using hy)).1
   | lambda l =>
-    simp only [cellPF]
-    refine immPF_congr l.bc fun y hy => (hc y ?_).1
+    simp only [cellTF]
+    refine immTF_congr l.bc fun y hy => (hc y ?_).1
     simp only [eraseC, crefs, Heap.lambdaRefs, if_true, List.mem_append]
     exact .inl (.inl hy)
   | cont k =>
-    simp only [cellPF]
+    simp only [cellTF]
     refine all_neF_congr k.stack.cells fun y hy => (hc y ?_).1
     simp only [eraseC, crefs, Heap.contRefs, List.mem_append]
     exact .inl hy
@@ -93,11 +78,11 @@ theorem cellPF_congr {E E' P P' : Nat → Bool} (c : CCell)
 /-! ## a fresh cell holding any content, code included -/
 
 /-- **storing any cell — code included — in a fresh cell**: if the addresses the collector follows from the new
-    content are allocated and none of its value positions designates entry code, `HP` is kept, and so is `neB` of the
-    old values that referred to allocated cells -/
-theorem cput_hp_any {h : CHeap} (g : HG h) (gr : GlobRoots h) (hp : HP h) {c : CCell} (hr : CRefsOk h c)
-    (ok : cellPB h c = true) (sm : Small (cput h c).1) :
-    HP (cput h c).1 ∧ ∀ v, VRefsOk h v → neB h v = true → neB (cput h c).1 v = true := by
+    content are allocated and none of its value positions designates a capturing lambda, `Taint.HP` is kept, and so is
+    `neE` of the old values that referred to allocated cells -/
+theorem cput_thp_any {h : CHeap} (g : HG h) (gr : GlobRoots h) (hp : Taint.HP h) {c : CCell} (hr : CRefsOk h c)
+    (ok : cellEB h c = true) (sm : Small (cput h c).1) :
+    Taint.HP (cput h c).1 ∧ ∀ v, VRefsOk h v → neE h v = true → neE (cput h c).1 v = true := by
   have inv := HInv.of_wf g.wf
   have a := calloc_spec h inv
   have hsz : (cput h c).1.cells.size = (calloc h).1.cells.size := by simp [cput, cwrite]
@@ -137,14 +122,12 @@ theorem cput_hp_any {h : CHeap} (g : HG h) (gr : GlobRoots h) (hp : HP h) {c : C
       by_cases hlt' : q < (calloc h).1.cells.size
       · rw [a.cells_new q (by omega) hlt']
       · rw [Array.getElem?_eq_none (by omega)]
-  have ent : ∀ q, q ≠ (calloc h).2 → entryAt (cput h c).1 q = entryAt h q := by
-    intro q hq; unfold entryAt; rw [lam q hq]
-  have prc : ∀ q, q ≠ (calloc h).2 → procAtB (cput h c).1 q = procAtB h q := by
-    intro q hq; unfold procAtB; rw [lam q hq]
-  have cellEq : ∀ x, CRefsOk h x → cellPB (cput h c).1 x = cellPB h x := by
+  have ent : ∀ q, q ≠ (calloc h).2 → capAt (cput h c).1 q = capAt h q := by
+    intro q hq; unfold capAt; rw [lam q hq]
+  have cellEq : ∀ x, CRefsOk h x → cellEB (cput h c).1 x = cellEB h x := by
     intro x hx
-    exact cellPF_congr x fun y hy => ⟨ent y (nfne y (hx y hy)), prc y (nfne y (hx y hy))⟩
-  have neEq : ∀ v, VRefsOk h v → neB (cput h c).1 v = neB h v := by
+    exact cellTF_congr x fun y hy => ⟨ent y (nfne y (hx y hy)), rfl⟩
+  have neEq : ∀ v, VRefsOk h v → neE (cput h c).1 v = neE h v := by
     intro v hv
     exact neF_congr v fun y hy => ent y (nfne y (hv y hy))
   refine ⟨⟨?_, ?_, ?_⟩, fun v hv hn => by rw [neEq v hv]; exact hn⟩
@@ -194,36 +177,43 @@ theorem cput_hp_any {h : CHeap} (g : HG h) (gr : GlobRoots h) (hp : HP h) {c : C
 
 /-! ## one loader step -/
 
-/-- **one loader step keeps "no value leads to entry code"**; values of the old heap that referred to allocated
-    cells keep the property -/
-theorem instStep_hp {Q : CHeap → CLambda → Prop} {h h' : CHeap} (st : InstStep Q h h') (g : HG h) (gr : GlobRoots h)
-    (lf : LF h) (hp : HP h) (sm : Small h') :
-    HP h' ∧ ∀ v, VRefsOk h v → neB h v = true → neB h' v = true := by
+/-- **one loader step keeps "no value leads to a capturing lambda"**; values of the old heap that referred to
+    allocated cells keep the property -/
+theorem instStep_thp {Q : CHeap → CLambda → Prop} (hQ : ∀ h cl, Q h cl → LamEnvOk h cl) {h h' : CHeap}
+    (st : InstStep Q h h') (g : HG h) (gr : GlobRoots h) (lf : LF h) (hp : Taint.HP h) (sm : Small h') :
+    Taint.HP h' ∧ ∀ v, VRefsOk h v → neE h v = true → neE h' v = true := by
   cases st with
-  | @cell c nc hr ok _ => exact cput_hp_any g gr hp hr ok sm
+  | @cell c nc hr _ hd =>
+    have ok : cellEB h c = true := by
+      cases nc with
+      | pair a d => exact hd
+      | atom h1 h2 => exact hd
+      | vector es => exact hd
+      | lambda q => exact (hQ _ _ q).imm
+    exact cput_thp_any g gr hp hr ok sm
   | @sym v name hs hk =>
     obtain ⟨tag, rfl, _⟩ := symOf_some hs
-    obtain ⟨r, _⟩ := putNew_res lf hp (v := .opaque tag) rfl
-    exact ⟨r.hp, fun v _ hn => r.neB hn⟩
+    obtain ⟨r, _⟩ := Taint.putNew_res lf hp (v := .opaque tag) rfl
+    exact ⟨r.hp, fun v _ hn => r.neE hn⟩
   | @glob y hy =>
     have ls : LamSame h { h with globSyms := y :: h.globSyms, globals := h.globals.push .undefined } := .of_cells rfl
-    refine ⟨⟨?_, ?_, ?_⟩, fun v _ hn => by rw [ls.neB]; exact hn⟩
-    · intro i x hx; rw [ls.cellPB]; exact hp.cells i x hx
+    refine ⟨⟨?_, ?_, ?_⟩, fun v _ hn => by rw [ls.neE]; exact hn⟩
+    · intro i x hx; rw [ls.cellEB]; exact hp.cells i x hx
     · intro n v hv
-      rw [ls.neB]
+      rw [ls.neE]
       have hv' : (h.globals.push .undefined)[n]? = some v := hv
       rw [Array.getElem?_push] at hv'
       split at hv'
       · cases hv'; rfl
       · exact hp.globals n v hv'
-    · intro name q hl; rw [ls.entry]; exact hp.sym name q hl
+    · intro name q hl; rw [ls.capE]; exact hp.sym name q hl
   | @resym tab gs hl hgs =>
     have ls : LamSame h { h with symtab := tab, globSyms := gs } := .of_cells rfl
-    refine ⟨⟨?_, ?_, ?_⟩, fun v _ hn => by rw [ls.neB]; exact hn⟩
-    · intro i x hx; rw [ls.cellPB]; exact hp.cells i x hx
-    · intro n v hv; rw [ls.neB]; exact hp.globals n v hv
+    refine ⟨⟨?_, ?_, ?_⟩, fun v _ hn => by rw [ls.neE]; exact hn⟩
+    · intro i x hx; rw [ls.cellEB]; exact hp.cells i x hx
+    · intro n v hv; rw [ls.neE]; exact hp.globals n v hv
     · intro name q hq
-      rw [ls.entry]
+      rw [ls.capE]
       refine hp.sym name q ?_
       rw [← hl name]; exact hq
 
